@@ -93,6 +93,18 @@ def body_for(ctx):
                          'second compute_emissions call with the same performance model and configuration but another fuel: '
                          + f.detail)
                 return
+            # the inventory returned by the first call is a value: the second call must not have changed it
+            try:
+                again = ec.view_of(out.obj)
+            except core.PASS_THROUGH:
+                raise
+            except Exception as e:  # noqa: BLE001
+                again = repr(e)
+            if again != out.view:
+                diff = [k for k in out.view if not isinstance(again, dict) or again.get(k) != out.view[k]]
+                ctx.fail('result.altered_by_later_call', 'mismatch', 'emission.compute_emissions', (diff or ['?'])[0],
+                         f'the inventory returned by the first call changed after a second call with another fuel: parts {diff[:4]}')
+                return
         if nontrivial:
             tf = inp.tf
             ctx.mark_nontrivial({
